@@ -1710,9 +1710,9 @@ impl Engine for EngineB {
     }
     fn rule(&self) -> String {
         if self.faults {
-            "seeded worlds of 1-4 user libraries with arbitrary directed import graphs (self-loops, 2/3-cycles, diamonds, edges to a library that exists nowhere), per-library health in {healthy, missing, wrong name inside file, faulting body (7 run-time error kinds), broken syntax (3 variants), invalid UTF-8 at byte k, directory in place of the file, empty, truncated at byte k, dangling symlink}, file or registered delivery, decoy libraries in the working directory, program directory given absolute or relative; histories of 1-4 import attempts on one interpreter with heal/break events between attempts in a third of the runs. Oracle: reachability/cycle analysis of the graph as it is at that attempt (several causes: any is accepted; after events: any mixture of versions a loader may have kept) and the same import on a fresh real interpreter. distinct = hash of (event/attempt sequence with expected classes, graph, health, delivery); non-trivial = at least one fault or cycle was reachable from an attempted import".into()
+            "seeded worlds of 1-4 user libraries with arbitrary directed import graphs (self-loops, 2/3-cycles, diamonds, edges to a library that exists nowhere), per-library health in {healthy, missing, wrong name inside file, faulting body (7 run-time error kinds), broken syntax (3 variants), invalid UTF-8 at byte k, directory in place of the file, empty, truncated at byte k, dangling symlink}, file or registered delivery, decoy libraries in the working directory, program directory given absolute or relative; library names with punctuation; library files may hold other libraries, plain forms or drafts of other world libraries next to the wanted one; declarations in several pieces and orders; histories of 1-4 import attempts on one interpreter with heal/break events between attempts in a third of the runs, the program directory set late (one run in 8) or moved to a second project with redrawn health (one in 5); one run in 25 is a chain world of 2-110 libraries each importing the next. Oracle: reachability/cycle analysis of the graph as it is at that attempt (several causes: any is accepted; after events: old versions only of libraries an earlier attempt could have read, or registered ones) and the same import on a fresh real interpreter. distinct = hash of (event/attempt sequence with expected classes, graph, health, delivery); non-trivial = at least one fault or cycle was reachable from an attempted import".into()
         } else {
-            "seeded worlds of 1-4 healthy user libraries forming a DAG (shared dependencies favoured), each with private state `n`, a private `helper`, exported procedures (with and without export rename) incl. one calling a dependency and one referencing a name only the importer defines; file or registered delivery; decoy libraries with marker values in the working directory. Histories: import declarations (direct, prefix, only, rename) interleaved with driver-level probes (apply_procedure on exported procedures), then 5-35 program forms: calls of exported procedures, redefinitions of n / helper / + / secret / imported names, references to unexported names. Oracle: reference module system (one instance per library per interpreter). distinct = hash of op-kind sequence x import graph; non-trivial = a library's state was reached through another library, or two different libraries' state procedures were exercised".into()
+            "seeded worlds of 1-4 healthy user libraries forming a DAG (shared dependencies favoured), each with private state `n`, a private `helper`, exported procedures (with and without export rename) incl. one calling a dependency and one referencing a name only the importer defines; file or registered delivery; decoy libraries with marker values in the working directory; further: re-exports, exported constants, export renames onto bound names, a private macro or procedure of one common name, dependencies imported through prefix/only/rename, declarations in several pieces and orders, other libraries or forms in the same file, names with punctuation, and the special libraries bare (no import declaration), nat (native, fresh box per factory call), noexp (no export declaration) and ovr (defines and exports a name it imported; its import is not judged), libraries that assign an imported name (not judged either), failing import declarations. Histories: import declarations (direct, prefix, only, rename) interleaved with driver-level probes (apply_procedure on exported procedures), then 5-35 program forms: calls of exported procedures, redefinitions of n / helper / + / secret / imported names, references to unexported names. Oracle: reference module system (one instance per library per interpreter). distinct = hash of op-kind sequence x import graph; non-trivial = a library's state was reached through another library, or two different libraries' state procedures were exercised".into()
         }
     }
     fn assumptions(&self) -> Vec<String> {
@@ -1720,7 +1720,7 @@ impl Engine for EngineB {
             vec![
                 "a library file whose bytes are damaged inside the define-library form cannot yield a usable library: truncation gives a syntax error, an invalid byte an IO error".into(),
                 "which of several independently reachable causes is reported is left open".into(),
-                "after a heal/break event a loader may keep what it already parsed: outcomes right for any mixture of versions are accepted".into(),
+                "after a heal/break/move event a loader may keep what it already parsed: an old version is accepted only for a library that an earlier attempt on this interpreter could have read (reachable through readable versions while that version was readable) or that was ever registered".into(),
                 "imports precede the body inside every generated library, so a cycle is reachable through a library whose body faults".into(),
             ]
         } else {
